@@ -29,6 +29,14 @@ pub(crate) fn sched_point(k: u8) {
     }
 }
 
+/// runs `sched_point(k)` when dropped (operation exit of the real list)
+pub(crate) struct SchedGuard(pub(crate) u8);
+impl Drop for SchedGuard {
+    fn drop(&mut self) {
+        sched_point(self.0)
+    }
+}
+
 pub(crate) fn probe_alloc(p: usize) {
     unsafe {
         ALLOCS += 1;
@@ -442,3 +450,37 @@ pub fn order_peek<F>(w: &OrderWrapperPub<F>) -> (&F, usize) {
 
 /// `ForEachConcurrent` is not nameable from outside the crate
 pub use crate::buffered::ForEachConcurrent;
+
+// ------------------------------------------------------- the list by itself (Layer W)
+
+/// The waker list of the current build (real `waker_list.rs`, or the reference
+/// model) behind a safe, public API, for the shape harnesses of C03.
+pub struct RawList {
+    list: WakerList,
+    cap: usize,
+}
+
+impl RawList {
+    pub fn new(cap: usize) -> Self {
+        RawList { list: WakerList::new(cap), cap }
+    }
+    pub fn push(&self, i: usize) {
+        assert!(i < self.cap);
+        unsafe { self.list.push(i) }
+    }
+    pub fn register(&mut self, w: &Waker) {
+        self.list.register(w)
+    }
+    /// `Some((slot, borrowed waker))`, `None` when empty (or inconsistent)
+    pub fn pop(&mut self) -> Option<(usize, core::mem::ManuallyDrop<Waker>)> {
+        match unsafe { self.list.pop() } {
+            crate::waker_list::ReadySlot::Ready(x) => Some(x),
+            _ => None,
+        }
+    }
+    /// the (borrowed, not owning) waker of slot i
+    pub fn waker(&self, i: usize) -> core::mem::ManuallyDrop<Waker> {
+        assert!(i < self.cap);
+        self.list.verif_get(i)
+    }
+}
